@@ -122,7 +122,7 @@ def run_gkf(exe, requests):
 
 def k_events(ctx, exe, proofs_ok):
     tags, name = read_tags()
-    depth = (7 if ctx.quick else 9)
+    depth = (7 if ctx.quick else 8)
     v = "From Coq Require Import List.\nFrom Gama Require Import GkfRun.\nImport ListNotations.\n" \
         'Goal True. idtac "@@ENUM". Abort.\nEval vm_compute in enum %d.\n' % depth
     rc, cout = vlib.coq_run(v, ctx.scratch, name="cases_c11_enum", timeout=1800)
@@ -133,6 +133,126 @@ def k_events(ctx, exe, proofs_ok):
         return
     docs = parse_enum(cout.split("@@ENUM", 1)[1])
     ctx.extra["event_sequences"] = {"prefix_bound": depth, "documents": len(docs)}
+    acc = judge_documents(ctx, exe, docs, tags, name, "enumerated")
+    # longer documents: random trees of the schema grammar (python generator), one random perturbation in half of them;
+    # verdicts again from Coq
+    rng = ctx.rng
+    seqs = []
+    for _ in range(300 if ctx.quick else 6000):
+        w = random_document(rng, tags)
+        if rng.random() < 0.5:
+            w = perturb_events(rng, w, len(tags))
+        if w:
+            seqs.append(w)
+    v = "From Coq Require Import List.\nFrom Gama Require Import GkfRun.\nImport ListNotations.\n" \
+        "Definition ws : list (list nat) := [\n%s\n].\n" % ";\n".join("[%s]" % "; ".join(str(c) for c in w) for w in seqs) + \
+        'Goal True. idtac "@@RAND". Abort.\nEval vm_compute in map (fun w => (w, verdict w, in_code_grammar w, in_xsd_grammar w)) ws.\n'
+    rc, cout = vlib.coq_run(v, ctx.scratch, name="cases_c11_rand", timeout=1800)
+    ctx.checker_cmds.append("coqc -Q coq Gama cases_c11_rand.v   (verdicts of %d random documents)" % len(seqs))
+    if rc != 0 or "@@RAND" not in cout:
+        ctx.obligation(False, "K:random documents")
+        ctx.violation({"kind": "K:gkf-events", "broken": "verdicts of random documents did not evaluate", "tail": cout[-800:]}, "cases file failed", no_input=True)
+    else:
+        acc += judge_documents(ctx, exe, parse_enum(cout.split("@@RAND", 1)[1]), tags, name, "random")
+    return acc
+
+
+def well_formed(w):
+    d = 0
+    closed = False
+    for c in w:
+        if closed:
+            return False
+        if c == 0:
+            if d == 0:
+                return False
+            d -= 1
+            closed = d == 0
+        elif c == 1:
+            if d == 0:
+                return False
+        else:
+            d += 1
+    return d == 0 and len(w) > 0 and w[0] >= 2
+
+
+def perturb_events(rng, w, ntags):
+    for _ in range(20):
+        v = list(w)
+        k = rng.randrange(4)
+        i = rng.randrange(len(v))
+        if k == 0:          # insert an empty element of any tag
+            t = 2 + rng.randrange(ntags)
+            v[i:i] = [t, 0]
+        elif k == 1:        # insert text
+            v[i:i] = [1]
+        elif k == 2:        # rename an open tag
+            js = [j for j, c in enumerate(v) if c >= 2]
+            v[rng.choice(js)] = 2 + rng.randrange(ntags)
+        else:               # delete an empty element
+            js = [j for j in range(len(v) - 1) if v[j] >= 2 and v[j + 1] == 0]
+            if js:
+                j = rng.choice(js)
+                del v[j:j + 2]
+        if well_formed(v):
+            return v
+    return w
+
+
+def random_document(rng, tags):
+    """event codes of a random tree of the schema (xml/gama-local.xsd, element structure)"""
+    T = {t: 2 + i for i, t in enumerate(tags)}
+    w = []
+
+    def leaf(t):
+        w.extend([T[t], 0])
+
+    def cov():
+        w.extend([T["tag_cov_mat"], 1, 0])
+
+    w.append(T["tag_gama_xml"]); w.append(T["tag_network"])
+    for _ in range(rng.randrange(0, 4)):
+        k = rng.random()
+        if k < 0.2:
+            w.extend([T["tag_description"]] + [1] * rng.randrange(0, 2) + [0])
+        elif k < 0.4:
+            leaf("tag_parameters")
+        else:
+            w.append(T["tag_points_observations"])
+            for _ in range(rng.randrange(0, 6)):
+                c = rng.randrange(5)
+                if c == 0:
+                    leaf("tag_point")
+                elif c == 1:
+                    w.append(T["tag_obs"])
+                    for _ in range(rng.randrange(0, 5)):
+                        leaf(rng.choice(["tag_direction", "tag_distance", "tag_angle", "tag_s_distance", "tag_z_angle", "tag_azimuth"]))
+                    if rng.random() < 0.4:
+                        cov()
+                    w.append(0)
+                elif c == 2:
+                    w.append(T["tag_coordinates"])
+                    for _ in range(rng.randrange(1, 4)):
+                        leaf("tag_point")
+                    cov(); w.append(0)
+                elif c == 3:
+                    w.append(T["tag_height_differences"])
+                    for _ in range(rng.randrange(1, 4)):
+                        leaf("tag_dh")
+                    if rng.random() < 0.4:
+                        cov()
+                    w.append(0)
+                else:
+                    w.append(T["tag_vectors"])
+                    for _ in range(rng.randrange(1, 3)):
+                        leaf("tag_vec")
+                    cov(); w.append(0)
+            w.append(0)
+    w.extend([0, 0])
+    return w
+
+
+def judge_documents(ctx, exe, docs, tags, name, label):
     reqs = []
     meta = []
     for codes, verdict, incode, inxsd in docs:
@@ -142,17 +262,17 @@ def k_events(ctx, exe, proofs_ok):
     rc, lines, err = run_gkf(exe, reqs)
     if rc != 0 or len([l for l in lines if l]) != len(reqs):
         k = len([l for l in lines if l])
-        ctx.obligation(False, "K:events harness")
+        ctx.obligation(False, "K:events harness (%s)" % label)
         ctx.violation({"kind": "K:gkf-events", "input": reqs[k][1] if k < len(reqs) else None, "rc": rc, "stderr": err[-3000:]},
                       "GKFparser harness died (rc %d) on a generated document: %s" % (rc, (err.strip().splitlines() or ["?"])[0][:200]))
-        return
+        return []
     bad = 0
     nacc = 0
     for (codes, verdict, incode, inxsd, text, sem), ln in zip(meta, lines):
         w = ln.split()
         ctx.count(("doc", tuple(codes)), nontrivial=True)
-        ctx.hist("events", len(codes))
-        ctx.hist("model_verdict", "accept" if verdict is None else "refuse")
+        ctx.hist("events_" + label, len(codes) // 5 * 5)
+        ctx.hist("model_verdict_" + label, "accept" if verdict is None else "refuse")
         accepted = w[0] == "ok"
         if accepted:
             nacc += 1
@@ -182,9 +302,10 @@ def k_events(ctx, exe, proofs_ok):
             if bad <= 5:
                 ctx.violation({"kind": "K:gkf-events", "input": text, "events": codes, "model_verdict": verdict, "in_code_grammar": incode,
                                "in_xsd_grammar": inxsd, "semantic_expectation": sem, "parser": ln}, why)
-    ctx.hist("accepted_documents", nacc)
-    ctx.obligation(bad == 0, "K:gkf-events %d documents" % len(docs))
-    ctx.sample({"document": meta[len(meta) // 2][4], "model": meta[len(meta) // 2][1], "parser": lines[len(meta) // 2]})
+    ctx.hist("accepted_documents_" + label, nacc)
+    ctx.obligation(bad == 0, "K:gkf-events %d %s documents" % (len(docs), label))
+    if meta:
+        ctx.sample({"document": meta[len(meta) // 2][4], "model": meta[len(meta) // 2][1], "parser": lines[len(meta) // 2]})
     return [m[4] for m in meta if m[1] is None and m[5] is None]
 
 
@@ -227,17 +348,91 @@ def k_chunks(ctx, exe, extra_docs):
     ctx.obligation(bad == 0, "K:gkf-chunks")
 
 
+def k_encodings(ctx, exe):
+    """the 8-bit encodings the parsers install themselves (UnknownEncodingHandler): every byte 0x80..0xFF must be decoded as the
+    code page says (python codecs as the reference), under ASan"""
+    pages = {"iso-8859-2": "iso8859_2", "cp-1250": "cp1250", "windows-1250": "cp1250", "cp-1251": "cp1251", "windows-1251": "cp1251"}
+    reqs, meta = [], []
+    for enc, codec in pages.items():
+        for b in range(0x80, 0x100):
+            try:
+                ch = bytes([b]).decode(codec)
+            except UnicodeDecodeError:
+                continue          # undefined in the code page
+            if codec == "cp1250" and b == 0x80:
+                continue          # the euro sign entered cp1250 in 1998; gama's table keeps U+0080 (harmless, noted in DESIGN.md)
+            doc = ('<?xml version="1.0" encoding="%s"?>\n<gama-local xmlns="%s">\n<network>\n<description>' % (enc, NS)).encode() + b"a" + bytes([b]) + \
+                b"z</description>\n<points-observations>\n</points-observations>\n</network>\n</gama-local>\n"
+            reqs.append(("E", doc)); meta.append((enc, b, ch))
+    for enc in ("x-unknown", "utf-16", "iso-8859-5"):
+        doc = ('<?xml version="1.0" encoding="%s"?>\n<gama-local xmlns="%s">\n<network>\n<description>' % (enc, NS)).encode() + b"a\xe1z</description>\n</network>\n</gama-local>\n"
+        reqs.append(("E", doc)); meta.append((enc, 0xe1, None))
+    rc, lines, err = run_gkf(exe, reqs)
+    bad = 0
+    if rc != 0:
+        bad += 1
+        k = len([l for l in lines if l])
+        ctx.violation({"kind": "K:encodings", "input": reqs[k][1].decode("latin-1") if k < len(reqs) else None, "rc": rc, "stderr": err[-3000:]},
+                      "GKFparser harness died while an encoding was set up: %s" % (err.strip().splitlines() or ["?"])[0][:200])
+    else:
+        for (enc, b, ch), ln, (_, doc) in zip(meta, lines, reqs):
+            ctx.count(("enc", enc, b), nontrivial=True)
+            w = ln.split()
+            why = None
+            if ch is None:
+                if w[0] == "exc" and int(w[1]) < 1:
+                    why = "encoding %s refused without a line" % enc
+            elif w[0] != "ok":
+                why = "a document in %s with byte 0x%02x is refused: %s" % (enc, b, ln[:100])
+            else:
+                got = bytes.fromhex(w[2]).decode("utf-8", "replace") if len(w) > 2 and w[2] != "-" else ""
+                if got != "a" + ch + "z":
+                    why = "byte 0x%02x in %s is read as %r instead of %r" % (b, enc, got[1:-1], ch)
+            if why:
+                bad += 1
+                if bad <= 3:
+                    ctx.violation({"kind": "K:encodings", "input": doc.decode("latin-1"), "encoding": enc, "byte": b, "parser": ln}, why)
+    ctx.obligation(bad == 0, "K:encodings")
+
+
 # ------------------------------------------------------------------------------------------------
 # E: the executables under sanitizers
 
 SAN_MARK = re.compile(r"AddressSanitizer|runtime error:|LeakSanitizer|UndefinedBehaviorSanitizer|SUMMARY: ")
 
 
+ENCODINGS = [b"iso-8859-2", b"cp-1250", b"windows-1250", b"cp-1251", b"windows-1251", b"utf-8", b"us-ascii", b"iso-8859-1", b"utf-16", b"x-unknown"]
+
+
 def mutate(rng, data):
-    k = rng.randrange(8)
+    k = rng.randrange(10)
     n = len(data)
     if n == 0:
         return b"<"
+    if k == 8:      # declare an encoding (the parsers install their own handler for the 8-bit ones) and use high bytes
+        enc = rng.choice(ENCODINGS)
+        body = re.sub(rb"^\s*<\?xml[^>]*\?>", b"", data, count=1)
+        m = re.search(rb"<description>", body)
+        hi = bytes(rng.choice([0xA0, 0xA1, 0xE1, 0xFF, 0x80, 0xC0, 0xB1]) for _ in range(rng.randrange(1, 6)))
+        if m and rng.random() < 0.7:
+            body = body[:m.end()] + hi + body[m.end():]
+        return b'<?xml version="1.0" encoding="' + enc + b'"?>' + body
+    if k == 9:      # one number more / less / garbled inside a covariance matrix
+        ms = list(re.finditer(rb"<cov-mat[^>]*>([^<]*)</cov-mat>", data))
+        if not ms:
+            return data
+        m = rng.choice(ms)
+        toks = m.group(1).split()
+        c = rng.randrange(4)
+        if c == 0:
+            toks.append(b"1.5")
+        elif c == 1 and toks:
+            toks.pop()
+        elif c == 2 and toks:
+            toks[rng.randrange(len(toks))] = rng.choice([b"x", b"-", b"1e999", b"nan", b"0", b"-1"])
+        else:
+            toks += [b"2.5"] * rng.randrange(2, 40)
+        return data[:m.start(1)] + b" ".join(toks) + data[m.end(1):]
     if k == 0:      # truncation
         return data[:rng.randrange(n)]
     if k == 1:      # byte flip
@@ -415,6 +610,7 @@ def run(ctx):
     v0 = ctx.violations
     accepted_docs = k_events(ctx, exe, proofs_ok) or []
     k_chunks(ctx, exe, accepted_docs)
+    k_encodings(ctx, exe)
     c18.k_literals(ctx)
     bdir = vlib.build_repo(sanitize=True)
     e_gama_local(ctx, bdir)
